@@ -168,6 +168,27 @@ theorem C01_witness_model :
 /-- hence the full statement fails -/
 theorem C01_witness : ¬ Ref.Statement := not_statement
 
+/-- **`C01_main_partial`**: the machine-level statement (with either reading of operand lists)
+for every program that is evaluated by a single `eval` step — an environment path (any atom,
+any environment) or a quotation `(q . x)` — under every budget: same cost and same tree, or both
+fail (`CostExceeded` / "cost exceeded", `PathIntoAtom` / "path into atom").
+
+What is missing for the full `StatementFor true` (and for `Statement` outside the defect region):
+the simulation between `Interp.runLoop` (separate environment stack, `SwapEval`/`Cons`/`Apply`)
+and `Ref.runLoop` (`(operand . env)` pairs on the value stack, `swap`/`eval`/`cons`/`apply`) for
+programs with operator applications — an induction on fuel with the invariant "value stacks
+correspond, the reference's pending `(x . env)` entries are the model's pending operands under
+the top environment" — into which the per-operator theorems `ref_op_eq_*`, `path_eq` and the two
+one-step cases below plug; plus `ref_op_eq_*` for the operators not yet proved (see the evidence). -/
+theorem C01_main_partial (lenient : Bool) (prog env : Tree) (h1 : OneStep prog) (budget fuel fuel' : Nat)
+    (mo : Except Err (Nat × Val × Ctr)) (ro : Res)
+    (hm : modelRun (fuel + 1) prog env budget = some mo)
+    (hr : adaptedRun lenient (fuel' + 2) prog env budget = some ro) : SameOutcome mo ro :=
+  one_step_agree lenient prog env h1 budget fuel fuel' mo ro hm hr
+
+example : OneStep (.atom [0, 0, 11]) := trivial
+example : OneStep (.pair (.atom [1]) (.atom [7])) := rfl
+
 /-- the hypotheses are satisfiable by every tree: `Val.ofTree args` is well-formed and erases to
 `args`; a nil-terminated list is `Proper` -/
 example (args : Tree) : (Val.ofTree args).wf = true ∧ (Val.ofTree args).erase = args :=
